@@ -118,19 +118,33 @@ def s_gv(draw, sps_max=128, with_extra=False, noncommensurate=False):
     cfg = {"sps": sps, "R": R, "form": form}
     if form.endswith("_nc"):
         cfg["frac"] = draw(st.floats(-0.45, 0.45))
+    # a slot count N may be in force: "match" = N*sps equals the length of the signal under test (sps becomes a divisor of it),
+    # "other" = some unrelated N, None = no N
+    cfg["Nmode"] = draw(st.sampled_from([None, None, None, "match", "match", "other"]))
     if with_extra:
         cfg["wavelength"] = draw(st.one_of(st.none(), st.floats(1260e-9, 1650e-9)))
     return cfg
 
 
-def apply_gv(cfg):
-    """configure the library's gv; returns (sps, R, fs) now in force"""
+def apply_gv(cfg, n_samples=None):
+    """configure the library's gv; returns (sps, R, fs) now in force. With n_samples and cfg['Nmode'] a slot count N is put in force too."""
     import warnings
     sps, R = cfg["sps"], cfg["R"]
+    nmode = cfg.get("Nmode")
+    if nmode == "match" and n_samples and not cfg["form"].endswith("_nc") and cfg["form"] != "default":
+        if n_samples % sps:
+            sps = max(d for d in range(1, min(n_samples, 128) + 1) if n_samples % d == 0)
+        Nslots = n_samples // sps
+    elif nmode == "other" and cfg["form"] != "default" and not cfg["form"].endswith("_nc"):
+        Nslots = 1 + (int(R) + sps) % 37
+    else:
+        Nslots = None
     fs = R * sps
     kw = {}
     if cfg.get("wavelength"):
         kw["wavelength"] = cfg["wavelength"]
+    if Nslots:
+        kw["N"] = Nslots
     with warnings.catch_warnings():
         warnings.simplefilter("ignore")
         gv.clean()
